@@ -104,6 +104,12 @@ func c28RecStrings(recs []c28Rec) []string {
 		for _, sy := range r.Synth {
 			out = append(out, fmt.Sprintf("    +synthetic (%s)", sy))
 		}
+		for _, v := range r.Vanished {
+			out = append(out, fmt.Sprintf("    -detached together with it (%s)", v))
+		}
+		if r.AlreadyGone {
+			out = append(out, "    (had already left the mount table with a detached entry above it)")
+		}
 	}
 	return out
 }
@@ -157,8 +163,7 @@ func (mo *c28Mon) runHistory(idx int, scratch string) {
 	}
 
 	for ui, prof := range profiles {
-		sim.update = ui
-		sim.recs = nil
+		sim.startUpdate(ui)
 		desiredText, err := osutil.SaveMountProfileText(&osutil.MountProfile{Entries: prof})
 		if err != nil {
 			c.Inconclusive(fmt.Sprintf("cannot render desired profile: %v", err))
@@ -171,6 +176,10 @@ func (mo *c28Mon) runHistory(idx int, scratch string) {
 		for i := range prof {
 			_, lerr := os.Lstat(prof[i].Dir)
 			existedAtPlan[filepath.Clean(prof[i].Dir)] = lerr == nil
+		}
+		seqBefore := map[string]int{}
+		for _, l := range sim.live {
+			seqBefore[l.key] = l.seq
 		}
 		uerr := executeMountProfileUpdate(ctx)
 		c.Count("updates_run", 1)
@@ -244,6 +253,13 @@ func (mo *c28Mon) runHistory(idx int, scratch string) {
 		}
 		mo.checkSaved(idx, ui, current, desired, ctx.saved, sim.recs, witness)
 		mo.checkKept(idx, ui, current, desired, sim.recs, witness)
+		mo.countNesting(current, desired, seqBefore)
+		if !mo.checkMountTable(idx, ui, ctx.saved, sim, witness) {
+			// the record no longer describes the simulated mount table: the rest
+			// of the history would be judged against a fiction
+			c.Count("histories_ended_after_mount_table_divergence", 1)
+			break
+		}
 
 		// -- codec on the recorded profile: what the next update loads is what
 		// this update saved (empty Name/Type are spelled "none": excluded by the
@@ -264,6 +280,8 @@ func (mo *c28Mon) runHistory(idx int, scratch string) {
 	c.Count("perform_type_mismatch_errors", sim.typeMismatch)
 	c.Count("unmounts_of_entries_unknown_to_simulator", sim.unknownUnmounts)
 	c.Count("symlink_unmounted_after_its_tmpfs_was_gone", sim.symlinkGoneWithParent)
+	c.Count("entries_detached_together_with_the_entry_above_them", sim.detachedWithParent)
+	c.Count("unmounts_of_entries_already_detached_with_the_entry_above_them", sim.unmountsOfGone)
 	c.Eval()
 	if nontrivial {
 		c.Nontrivial(kit.Sig("history", strings.Join(structure, ",")))
@@ -515,6 +533,191 @@ func (mo *c28Mon) checkKept(idx, ui int, current, desired []osutil.MountEntry, r
 			c.Violation("C28:keep:unchanged-entry-not-kept", witness(map[string]interface{}{
 				"update": ui, "entry": e.String(), "keep_changes": keeps, "mount_or_unmount_changes": others}))
 		}
+	}
+}
+
+// ---------------------------------------------------------------------------
+// (f) the simulated mount table after the update is what the update recorded
+//
+// The simulator keeps a mount table: Mount adds a row, Unmount removes the row
+// and, when the change detaches (x-snapd.detach, which the planner puts on
+// every tmpfs / bind / rbind), every row mounted later at a path beneath it.
+// A Keep changes nothing. So an unchanged entry that the planner keeps although
+// the entry it sits on is unmounted in the same change list is gone from the
+// table while the saved profile (= desired) still lists it.
+
+func (mo *c28Mon) checkMountTable(idx, ui int, saved []osutil.MountEntry, sim *c28Sim,
+	witness func(map[string]interface{}) map[string]interface{}) bool {
+	c := mo.c
+	c.Count("mount_tables_compared_with_saved_profile", 1)
+	c.Count("mount_table_entries_compared", len(saved))
+	table := sim.table()
+	rec := map[string]int{}
+	strs := map[string]string{}
+	origins := map[string]string{}
+	for i := range saved {
+		k := c28Key(&saved[i])
+		rec[k]++
+		strs[k] = saved[i].String()
+		origins[k] = c28Origin(&saved[i])
+	}
+	kept := map[string]bool{}
+	keptDirs := map[string]bool{}
+	for _, rc := range sim.recs {
+		if rc.Action == Keep {
+			kept[c28Key(&rc.Entry)] = true
+			keptDirs[filepath.Clean(rc.Entry.Dir)] = true
+		}
+	}
+	var tableDump []string
+	for _, l := range sim.live {
+		tableDump = append(tableDump, fmt.Sprintf("#%d %s", l.seq, l.str))
+	}
+	ok := true
+	var resync []c28Live
+	var keys []string
+	for k := range rec {
+		keys = append(keys, k)
+	}
+	sort.Strings(keys)
+	for _, k := range keys {
+		if table[k] >= rec[k] {
+			continue
+		}
+		sig := "C28:mount-table:recorded-entry-not-mounted:other"
+		extra := map[string]interface{}{"update": ui, "entry": strs[k], "simulated_mount_table": tableDump,
+			"note": "#n = the n-th Mount the simulator performed since the start of the history"}
+		if g := sim.gone[k]; len(g) > 0 && kept[k] && rec[k]-table[k] == 1 {
+			last := g[len(g)-1]
+			po, co := last.parentOrigin, origins[k]
+			switch {
+			case (po == "overname") != (co == "overname"):
+				// the planner sorts overname entries apart from all others before
+				// its changed-parent prefix scan
+				sig = "C28:mount-table:kept-entry-detached-with-unmounted-parent:across-overname-boundary"
+			case keptDirs[last.parentDir]:
+				// two entries on one directory (an entry and the tmpfs of a mimic
+				// over its mount point): the one that stays resets the planner's
+				// skip prefix right after the one that goes
+				sig = "C28:mount-table:kept-entry-detached-with-unmounted-parent:parent-shares-its-directory-with-a-kept-entry"
+			default:
+				sig = "C28:mount-table:kept-entry-detached-with-unmounted-parent:" + po + "-parent-" + co + "-child"
+			}
+			extra["detached_parent"] = last.parent
+			extra["kept_entry_mounted_as_number"] = last.row.seq
+			resync = append(resync, last.row)
+		} else {
+			ok = false
+		}
+		c.Violation(sig, witness(extra))
+	}
+	keys = keys[:0]
+	for k := range table {
+		keys = append(keys, k)
+	}
+	sort.Strings(keys)
+	for _, k := range keys {
+		if table[k] <= rec[k] {
+			continue
+		}
+		ok = false
+		c.Violation("C28:mount-table:mounted-entry-not-recorded", witness(map[string]interface{}{
+			"update": ui, "entry_key": k, "simulated_mount_table": tableDump}))
+	}
+	if ok && len(resync) > 0 {
+		// every difference is an entry that was kept while the entry under it
+		// was detached: put those rows back and go on as if the record were true
+		sim.restore(resync)
+		c.Count("mount_table_resynchronised_with_the_record", 1)
+	}
+	return ok
+}
+
+// countNesting only measures what the generator produced (no verdict): current
+// entries that are carried over unchanged while a current entry above them
+// changes or goes away, by origin of both, whether the child was really
+// mounted after the parent, and which unrelated entries sort around them.
+func (mo *c28Mon) countNesting(current, desired []osutil.MountEntry, seqBefore map[string]int) {
+	c := mo.c
+	ids := map[string]bool{}
+	for i := range desired {
+		ids[desired[i].XSnapdEntryID()] = true
+	}
+	carried := func(e *osutil.MountEntry) bool {
+		if e.XSnapdSynthetic() {
+			return ids[e.XSnapdNeededBy()]
+		}
+		for i := range desired {
+			if desired[i].Dir == e.Dir && e.Equal(&desired[i]) {
+				return true
+			}
+		}
+		return false
+	}
+	slash := func(d string) string { return strings.TrimSuffix(d, "/") + "/" }
+	stepMixed, stepMixedAfter := false, false
+	for i := range current {
+		ch := &current[i]
+		if ch.XSnapdSynthetic() || !carried(ch) {
+			continue
+		}
+		var par *osutil.MountEntry
+		for j := range current {
+			p := &current[j]
+			if j == i || carried(p) || !c28Beneath(ch.Dir, p.Dir) {
+				continue
+			}
+			// prefer a parent of another origin, then the outermost one
+			if par == nil {
+				par = p
+				continue
+			}
+			pm, qm := c28Origin(p) != c28Origin(ch), c28Origin(par) != c28Origin(ch)
+			if pm != qm && pm || pm == qm && len(p.Dir) < len(par.Dir) {
+				par = p
+			}
+		}
+		if par == nil {
+			continue
+		}
+		po, co := c28Origin(par), c28Origin(ch)
+		if po == co {
+			c.Count("unchanged_child_beneath_changed_parent_of_same_origin", 1)
+			continue
+		}
+		stepMixed = true
+		c.Count("unchanged_child_beneath_changed_parent_of_other_origin", 1)
+		c.Count("nesting_"+po+"_parent_changes_"+co+"_child_stays", 1)
+		if seqBefore[c28Key(ch)] > seqBefore[c28Key(par)] && seqBefore[c28Key(par)] > 0 {
+			c.Count("unchanged_child_beneath_changed_parent_of_other_origin_mounted_after_it", 1)
+		}
+		before, after := map[string]bool{}, map[string]bool{}
+		for j := range current {
+			x := &current[j]
+			if x == par || x == ch || c28Beneath(x.Dir, par.Dir) {
+				continue
+			}
+			if slash(x.Dir) > slash(par.Dir) {
+				after[c28Origin(x)] = true
+			} else {
+				before[c28Origin(x)] = true
+			}
+		}
+		for o := range before {
+			c.Count("mixed_nesting_with_unrelated_"+o+"_entry_sorting_before_parent", 1)
+		}
+		for o := range after {
+			c.Count("mixed_nesting_with_unrelated_"+o+"_entry_sorting_after_parent_subtree", 1)
+		}
+		if len(after) > 0 {
+			stepMixedAfter = true
+		}
+	}
+	if stepMixed {
+		c.Count("updates_with_unchanged_child_beneath_changed_parent_of_other_origin", 1)
+	}
+	if stepMixedAfter {
+		c.Count("updates_with_mixed_nesting_and_unrelated_entry_sorting_after", 1)
 	}
 }
 
